@@ -349,7 +349,7 @@ type ginState struct {
 }
 
 func (m *Machine) gin(p *Value) *ginState {
-	key := fmt.Sprintf("gin:%p", p)
+	key := m.addrKey("gin", p)
 	if g, ok := m.env[key].(*ginState); ok {
 		return g
 	}
